@@ -122,8 +122,8 @@ EfbEndWhy(ev) ==
     ELSE IF ~Quiescent THEN "unfinished"
     ELSE IF ~OutsEq(ev.outs) THEN "outs"
     ELSE IF ~NoInterferenceAt(mem) THEN "interference"
-    ELSE IF ~PartsEq(ev.conc) THEN "ef-concurrent"
-    ELSE IF ~PartsEq(ev.seq) THEN "ef-sequential"
+    ELSE IF ~PartsEq(ev.cb) THEN "ef-concurrent"
+    ELSE IF ~PartsEq(ev.sb) THEN "ef-sequential"
     ELSE "ok"
 
 EndWhy(ev) ==
